@@ -193,7 +193,7 @@ def run_values_in_intervals(case):
 @st.composite
 def vap_cases(draw):
     style = draw(gen.STYLES_ARITH)
-    spec = draw(gen.point_tier(style=style, label=gen.AB))
+    spec = draw(gen.point_tier(style=style, label=gen.AB, dups=draw(st.booleans())))  # dups: several points at one time
     ts = [e[0] for e in spec["entries"]]
     rows = draw(series_for(ts, style))
     return {"tier": spec, "rows": rows, "fuzzy": draw(st.booleans())}
@@ -217,6 +217,8 @@ def run_values_at_points(case):
                 if row not in same:
                     raise Violation("values-at-points", f"point {tm}: got {row}, expected one of {same}")
                 cl.add("exact_hit")
+                if [x[0] for x in spec["entries"]].count(tm) > 1:
+                    cl.add("exact_hit_for_coinciding_points")
                 if len(same) > 1:
                     cl.add("tie")
             elif row != ():
@@ -362,7 +364,7 @@ def equality_cases(draw):
     style = draw(gen.STYLES_ARITH)
     spec = draw(gen.textgrid(style=style, max_tiers=3, label=st.sampled_from(["a", "b", "132", "7", "1000", "nan", "0"])))
     return {"tg": spec, "tier": draw(st.integers(0, 5)), "entry": draw(st.integers(0, 9)), "field": draw(st.integers(0, 2)),
-            "what": draw(st.sampled_from(["none", "name", "type", "label", "label_numeric", "count", "timestamp", "timestamp", "span", "order"]))}
+            "what": draw(st.sampled_from(["none", "name", "type", "label", "label_numeric", "count", "timestamp", "timestamp", "span", "order", "tg_span"]))}
 
 
 def _perturb_time(x):
@@ -400,6 +402,10 @@ def run_equality(case):
     elif what == "span":
         t["maxT"] = _perturb_time(t["maxT"]) + 1.0
         cl = "perturbed_span"
+    elif what == "tg_span":
+        # only the textgrid's own span differs (a textgrid may be longer than all of its tiers)
+        s2["maxT"] = s2["maxT"] + 1.5
+        cl = "perturbed_textgrid_span_only"
     elif what == "order":
         if len(s2["tiers"]) < 2:
             return {"classes": ["skip"], "nontrivial": False}
@@ -434,7 +440,7 @@ def run_equality(case):
             cl = "perturbed_timestamp"
     c = mk_tg(s2)
     # tier-level comparison of the perturbed tier
-    if what != "order":
+    if what not in ("order", "tg_span"):
         x, y = a.tiers[ti], c.tiers[ti]
         if x == y or y == x:
             raise Violation(f"equality-misses:{what}", f"tiers differing in {what} compare equal: {snap_tier(x)} vs {snap_tier(y)}")
